@@ -35,13 +35,22 @@ def _roundtrip_inputs():
                     yield {"network": net, "version": v, "program": prog}
 
 
+def _roundtrip_more(seed):
+    rng = random.Random(1000 + seed)
+    for _ in range(40000):
+        v = rng.randrange(17)
+        n = rng.choice((20, 32)) if v == 0 else rng.randrange(2, 41)
+        yield {"network": rng.choice(["mainnet", "testnet", "regtest"]), "version": v, "program": bytes(rng.getrandbits(8) for _ in range(n))}
+
+
 register(Theorem(
     "C06.roundtrip.bounded", P, params={"network": ("enum", ["mainnet", "testnet", "regtest"]), "version": "int", "program": "bytes"},
     requires=["spec.bip173.allowed(version, program)"],
     body="spec.bip173.check_roundtrip(network, version, program)",
     cases=[Case("ok", ensures={k: f"result[{k!r}]" for k in ("is_reference_encoding", "max_90", "decodes_back", "accepted", "is_addr", "upper_case_accepted")})],
     fuc=FUC,
-    options={"bounded_only": True, "bounded_inputs": _roundtrip_inputs,
+    options={"bounded_only": True, "bounded_inputs": _roundtrip_inputs, "thorough_inputs": _roundtrip_more,
+             "thorough_bound": "40 000 random (network, version, length, program) tuples drawn from VERIF_SEED",
              "bound": "3 networks x versions 0..16 x every allowed program length (20, 32 for v0; 2..40 otherwise) x 6 contents "
                       "(all-zero, all-ones, single bit, first byte 1, last byte 1, random) = 11 268 cases; compared with an independent "
                       "transcription of the BIP173/BIP350 reference implementation.  BOUNDED, not proved"},
@@ -115,12 +124,27 @@ def _classify_inputs():
         yield {"s": b"bc1" + bytes(rng.choice(alphabet) for _ in range(rng.choice([0, 1, 5, 6, 7, 20])))}
 
 
+def _classify_more(seed):
+    import spec
+    s = spec.bip173
+    rng = random.Random(2000 + seed)
+    alphabet = list(s.CHARSET) + [ord("b"), ord("i"), ord("o"), ord("1"), ord("B"), ord("Q"), 0x00, 0x20, 0x7F, 0x80, 0xFF]
+    for _ in range(60000):
+        v = rng.randrange(17)
+        n = rng.choice((20, 32)) if v == 0 else rng.randrange(2, 41)
+        a = bytearray(s.encode(rng.choice([b"bc", b"tb", b"bcrt"]), v, bytes(rng.getrandbits(8) for _ in range(n))))
+        for _k in range(rng.choice([0, 1, 1, 2, 3, 4])):
+            a[rng.randrange(len(a))] = rng.choice(alphabet)
+        yield {"s": bytes(a) if rng.random() < 0.9 else bytes(a).upper()}
+
+
 register(Theorem(
     "C06.accept_set.bounded", P, params={"s": "bytes"},
     body="spec.bip173.check_classify(s)",
     cases=[Case("ok", ensures={k: f"result[{k!r}]" for k in ("bool", "is_addr_bool", "iff_valid", "is_addr_implied")})],
     fuc=FUC,
-    options={"bounded_only": True, "bounded_inputs": _classify_inputs,
+    options={"bounded_only": True, "bounded_inputs": _classify_inputs, "thorough_inputs": _classify_more,
+             "thorough_bound": "60 000 random valid addresses with 0-4 random substitutions (10 % upper-cased) drawn from VERIF_SEED",
              "bound": "the BIP173/BIP350 vector lists; every single-byte substitution (43 candidate bytes incl. non-alphabet, upper case, "
                       "NUL, 0x80, 0xFF) at every position of three short addresses; 2 100 sampled 2-4 substitutions, all case flips, truncations "
                       "and extensions of seven addresses; 1 470 checksum-valid strings over 7 HRPs x 6 versions x 10 program lengths x 3 checksum "
